@@ -440,3 +440,14 @@ def afeat(M):
     if any(q == M["I"][0][0] for q, _ in M["F"]):
         f.append("init-final")
     return "+".join(f) or "plain"
+
+
+def tlc_automata(shard, nshards, every=1):
+    """The slice of the TLC-enumerated exhaustive automaton family (MCAutomata.tla) this generator process replays."""
+    import json
+    import os
+    path = os.environ.get("VERIF_AFAMILY")
+    if not path:
+        return []
+    fam = json.load(open(path))
+    return [M for i, M in enumerate(fam) if i % nshards == shard and (i // nshards) % every == 0]
